@@ -35,6 +35,7 @@ package stringtemplate
 //@   modifies buffer[:]
 //@   ensures[single-part] len(tmpl.partProviders) == 1 ==> result.0 === ppval(ref(tmpl.partProviders[0]), fields)
 //@   ensures[length-is-sum-of-parts] len(tmpl.partProviders) != 1 ==> len(result.0) == elen(tmpl, fields, len(tmpl.partProviders))
+//@   ensures[copy-unless-single-part] len(tmpl.partProviders) != 1 ==> !shared(result.0)
 //@   ensures[scratch-buffer-reset] len(result.1) == 0 || (len(tmpl.partProviders) == 1 && result.1 === buffer)
 //@   loop 1: invariant -1 <= rangeindex && rangeindex < len(tmpl.partProviders) && len(buf) == elen(tmpl, fields, rangeindex + 1)
 //@   loop 1: invariant (ref(buf) == ref(buffer) && off(buf) == off(buffer) && cap(buf) == cap(buffer)) || isfresh(buf)
